@@ -8,12 +8,12 @@ def P(pid, level, claimed, tech, text, note, expl, assume=(), notdec=(), extra="
 KB = "contract-based deductive verification (sidecar contracts on the real functions - compiled kernels and Python method regions; VCs generated from the Cython / C / Python AST of the current tree, discharged by z3, finite-scope counter-models, cvc5 fallback) + run-time evaluation of the same contracts on the rebuilt code (bounded) + bounded contract check of the Python layer against definition-level oracles"
 
 P("C02", "other", True, KB,
-  "Proved (all inputs): the n.s.i. kernels _nsi_cross_transitivity and _mpi_nsi_newman_betweenness equal their weighted nested-sum specifications. Bounded: node-splitting invariance of every nsi_* measure evaluated on the real code with an independent twin-split transformation, exhaustive small graphs + seeded larger ones.",
+  "Proved (all inputs): the n.s.i. kernels _nsi_cross_transitivity and _mpi_nsi_newman_betweenness equal their weighted nested-sum specifications; the Python bodies of nsi_closeness, nsi_harmonic_closeness, nsi_global_efficiency and nsi_global_clustering equal their weighted sums over the n.s.i. distance d_ij + delta_ij / the local n.s.i. clustering (FORMULA, py_mode VCs with matrix-vector products). Bounded: node-splitting invariance of every nsi_* measure evaluated on the real code with an independent twin-split transformation, exhaustive small graphs + seeded larger ones.",
   "The general (all n) invariance needs a sum-splitting induction per measure and is not attempted; invariance itself is decided by the bounded layer only.",
-  "P: kernel = nested-sum spec obligations; B: metamorphic node-splitting check (bounded/c02.py).",
+  "P: kernel = nested-sum spec obligations, FORMULA obligations of four n.s.i. measures; B: metamorphic node-splitting check (bounded/c02.py).",
   notdec=["invariance for graphs beyond the enumerated scope"])
 P("C03", "other", True, KB,
-  "Proved: Newman chunk kernels equal their triple-sum definition; cliquishness kernels are index-safe and free of integer overflow (normaliser computed in double). Bounded: every public measure against an independent definition-level spec, exhaustive over small graphs.",
+  "Proved: Newman chunk kernels equal their triple-sum definition; cliquishness kernels are index-safe and free of integer overflow (normaliser computed in double); the Python bodies of nsi_closeness, nsi_harmonic_closeness, nsi_global_efficiency and nsi_global_clustering equal their defining weighted sums (FORMULA). Bounded: every public measure against an independent definition-level spec, exhaustive over small graphs.",
   "ARPACK/igraph algorithms are dependencies compared in the bounded layer only.",
   "P: _mpi_newman_betweenness/_mpi_nsi_newman_betweenness fold specs, cliquishness safety/overflow; B: bounded/c03.py vs specs/network_spec.py.",
   notdec=["spectral measures beyond comparison at stated tolerance", "igraph internals"])
@@ -35,10 +35,10 @@ P("C07", "other", True, KB,
   "Thresholding / rate logic lives in NumPy code checked by the bounded layer.",
   "P: DIST/EMBED kernel specs; B: bounded/c07.py.", notdec=["NaN arithmetic beyond the supremum-kernel facts"])
 P("C08", "proof", True, KB,
-  "Proved for every matrix and size: each of the five non-missing-value instantiations of the generic line kernel (vertical, diagonal, white vertical, and the two sequential ones, verified through their def wrappers with the kernel inlined) leaves hist[L-1] = hist0[L-1] + number of maximal runs of exactly L line cells, the count being the fold of a non-recursive maximal-run predicate over the traversal the library documents (diagonals below the main diagonal, whole columns); every increment happens at the end of a maximal run (asserts) and hist indices stay in [0,n_time). The sequential instantiations use the same supremum fold as the distance-matrix kernel and a double threshold (type obligation), so sequential = matrix mode. Missing-value instantiations: index safety and the k/missing_flag protocol. (FORMULA) determinism, laminarity, the three average line lengths (trapping time and mean recurrence time are forwarding aliases), the three maximal line lengths and the three line entropies are proved equal to the stated indexed sums of the histogram H returned by the *_dist() method (P(l)=H[l-1]; py_mode VCs with the 1-d NumPy vector semantics of pvc/npvec.py: arange, slices, @, sum, extract, nonzero; log uninterpreted). Bounded: direct run-length counting, conservation, RQA formulas on the real code; run-time evaluation of the proved contracts on the rebuilt kernels and methods.",
-  "Floats as reals; NumPy's 1-d vector operations have the semantics stated in pvc/npvec.py (assumed); recurrence_rate / recurrence_probability (2-d reductions) are bounded-only.",
-  "P: RUNLEN/COUNT obligations of 9 wrappers, FORMULA obligations of 11 RQA measures + 2 aliases; R: run-time contract check; B: bounded/c08.py.",
-  notdec=["recurrence_rate, recurrence_probability (2-d NumPy reductions): bounded layer only", "floating-point rounding of the quotients"], extra="C08TYPES")
+  "Proved for every matrix and size: each of the five non-missing-value instantiations of the generic line kernel (vertical, diagonal, white vertical, and the two sequential ones, verified through their def wrappers with the kernel inlined) leaves hist[L-1] = hist0[L-1] + number of maximal runs of exactly L line cells, the count being the fold of a non-recursive maximal-run predicate over the traversal the library documents (diagonals below the main diagonal, whole columns); every increment happens at the end of a maximal run (asserts) and hist indices stay in [0,n_time). The sequential instantiations use the same supremum fold as the distance-matrix kernel and a double threshold (type obligation), so sequential = matrix mode. Missing-value instantiations: index safety and the k/missing_flag protocol. (FORMULA) determinism, laminarity, the three average line lengths (trapping time and mean recurrence time are forwarding aliases), the three maximal line lengths and the three line entropies are proved equal to the stated indexed sums of the histogram H returned by the *_dist() method (P(l)=H[l-1]; py_mode VCs with the 1-d NumPy vector semantics of pvc/npvec.py: arange, slices, @, sum, extract, nonzero; log uninterpreted); the recurrence rate (sum of the matrix / N^2; in sequential mode sum_v v P(v) / N^2) and the recurrence probability at a lag (mean of that diagonal) are proved as indexed sums of the matrix returned by recurrence_matrix(). Bounded: direct run-length counting, conservation, RQA formulas on the real code; run-time evaluation of the proved contracts on the rebuilt kernels and methods.",
+  "Floats as reals; NumPy's vector / matrix operations have the semantics stated in pvc/npvec.py (assumed).",
+  "P: RUNLEN/COUNT obligations of 9 wrappers, FORMULA obligations of 11 RQA measures + 2 aliases, recurrence rate (dense / sequential) and recurrence probability; R: run-time contract check; B: bounded/c08.py.",
+  notdec=["floating-point rounding of the quotients"], extra="C08TYPES")
 P("C09", "other", True, KB,
   "Proved: (MASK) _calculate_threshold_adjacency returns A[i,j]=1 exactly for i!=j and S[i,j]>threshold (strict; the flat stride N+1 clears exactly the diagonal) - py_mode VC with NumPy mask semantics on the real method body; (QUANTILE index) threshold_from_link_density indexes inside the sorted array for every density in [0,1] and at most density*L entries lie above the selected order statistic; REPINV/GUARD of set_threshold/set_link_density/set_non_local. Bounded: strict-mask semantics, monotonicity, symmetry inheritance, density bound and setter chains on the real code for all small similarity matrices.",
   "The thresholding itself is NumPy code; proved obligations cover the state consistency only.",
@@ -52,7 +52,7 @@ P("C11", "other", True, KB,
   "Python-level sub-block extraction is checked by the bounded layer.",
   "P: cross kernel specs; B: bounded/c11.py.")
 P("C12", "other", True, KB,
-  "Proved: both distance kernels write M[i,j]=M[j,i]=expr(i,j) for all j<=i (exact symmetry, full coverage), the cosine is clamped to [-1,1] (UF mode: exactly the stated float expression), the Euclidean self-distance is exactly sqrt(0); Grid.euclidean_distance / GeoGrid.angular_distance call their kernel exactly once with matching shapes (USES). Bounded: closed-form distances incl. grids far from the origin, metric axioms, grids, weights.",
+  "Proved: both distance kernels write M[i,j]=M[j,i]=expr(i,j) for all j<=i (exact symmetry, full coverage), the cosine is clamped to [-1,1] (UF mode: exactly the stated float expression), the Euclidean self-distance is exactly sqrt(0); Grid.euclidean_distance / GeoGrid.angular_distance call their kernel exactly once with matching shapes (USES); in- and out-area weighted connectivity of GeoNetwork are the cos(lat)-weighted column / row sums of the adjacency matrix over the total cos(lat), whatever node weights the network carries (FORMULA). Bounded: closed-form distances incl. grids far from the origin, metric axioms, grids, weights.",
   "The 2^-10 / 2^-20 error bounds need floating-point error analysis; bounded comparison only.",
   "P: kernel postconditions; B: bounded/c12.py.", notdec=["floating-point error bounds"])
 P("C13", "other", True, KB,
@@ -62,7 +62,7 @@ P("C13", "other", True, KB,
 P("C14", "proof", True, KB,
   "Proved for every series length and content: the natural, horizontal and missing-value kernels set A[i,j]=1 exactly when every intermediate sample satisfies the visibility criterion (slope(i,k)<slope(i,j) resp. x[k]<min(x[i],x[j])), adjacent samples are always linked, the matrix is symmetric with zero diagonal, no index leaves the arrays; in the missing-value kernel (NaN-aware encoding) a missing sample blocks visibility as endpoint or in between and stays isolated. Floats are mathematical reals with a NaN flag. Bounded: exact rational oracle, affine invariance, mirror symmetry, degree split on the real code.",
   "float32 evaluation agrees with the real-arithmetic criterion only within the magnitude bound stated in the bounded layer.",
-  "P: NVG/HVG/MV obligations; B: bounded/c14.py.", notdec=["float32 ties beyond |values|,|times| < 2^11"])
+  "P: NVG/HVG/MV obligations, FORMULA obligations of retarded / advanced degree (sum of the row before / from the diagonal, adjacency not written); B: bounded/c14.py.", notdec=["float32 ties beyond |values|,|times| < 2^11"])
 P("C15", "other", True, KB,
   "Proved: embedding kernel spec and bounds of the surrogate kernels' array accesses; (TWINS) the recurrence-plot twins kernel _twins_r lists, for every state j, exactly the states k with identical recurrence columns, equal non-trivial neighbour counts and |j-k| > min_dist, each exactly once (the Python list of lists is modelled by its multiplicity table); (WALK) both twin-surrogate walks (_twin_surrogates_r / _twin_surrogates_s, random draws havoc) keep the visited state index inside [0,N), take twin entries only from inside the twin list of the current state, and write only rows / samples of the original embedding / data. Bounded: permutation exactness, amplitude spectra, twin structure, repeated calls, rescaling histories.",
   "The Surrogates twins kernel (_twins_s: recurrence matrix, neighbour counts and three-level lists built in one function) is bounded-only; which successor a walk takes is random and only constrained, not determined; FFT accuracy is numerical.",
@@ -77,9 +77,9 @@ P("C17", "proof", True, KB,
   "Termination of rejection loops is not claimed; igraph generators are dependencies; column sums of the cross block are bounded-only.",
   "P: GEO-REWIRE / CROSS obligations; B: bounded/c17.py.", notdec=["termination of rejection sampling", "igraph generators"])
 P("C18", "other", True, KB,
-  "Proved: the C current-flow kernels only touch [0,N^2) of their arrays for 0<=i<N. Bounded: circuit laws and defining sums on all small connected graphs, update sequences. P: REPINV(ResNetwork.update_resistances).",
+  "Proved: the C current-flow kernels only touch [0,N^2) of their arrays for 0<=i<N and return the defining triple / double sums; on the Python side effective_resistance is R[a,a]-R[a,b]-R[b,a]+R[b,b] (exactly 0 for a==b), admittive_degree the column sums of the admittance matrix, average_neighbors_admittive_degree sum_j adj[i,j] ad[j] / ad[i], and local_admittive_clustering sum_jk Y[i,j] Y[i,k] Y[j,k] / (ad_i (d_i - 1)) with 0 for d_i == 1 (FORMULA, real-valued networks, loop invariants with ghost partial sums). Bounded: circuit laws and defining sums on all small connected graphs, update sequences. P: REPINV(ResNetwork.update_resistances).",
   "Circuit laws are identities of the Moore-Penrose inverse (LAPACK) - bounded only.",
-  "P: RAW + REPINV; B: bounded/c18.py.", notdec=["pseudo-inverse identities"], extra="REPINV")
+  "P: RAW + defining sums of the C kernels, FORMULA obligations of four Python measures, REPINV; R: run-time contract check; B: bounded/c18.py.", notdec=["pseudo-inverse identities"], extra="REPINV")
 P("C19", "proof", True, KB,
   "Proved: the chunk kernels compute, for each ABSOLUTE row, a value defined by ghost folds that take absolute indices only (ROWLOCAL) - hence chunk result = serial result restricted to the chunk for every contiguous chunking. Bounded: the four measures under a scheduler-controlled MPI stand-in.",
   "Chunk arithmetic of the master loops and the submit/collect protocol are checked in the bounded layer (Python code).",
